@@ -3245,6 +3245,48 @@ def sparsity(repo, out):
                     'derivatives that vanish there are recorded as structural zeros', key='sparsity-zero-perturbation')
 
 
+# =========================================================================== C03.approx-data (view on a C12 clause)
+class _Only:
+    """Forward to `out` only the verdicts about one function (reuse of a clause owned by another module)."""
+
+    def __init__(self, out, qualname):
+        self._out, self._qn = out, qualname
+
+    def _mine(self, where):
+        qn = getattr(where, 'qualname', None) or (where[1] if isinstance(where, tuple) else None)
+        return qn == self._qn
+
+    def ok(self, where, node, why=''):
+        if self._mine(where):
+            self._out.ok(where, node, why)
+
+    def bad(self, where, node, why, key=None):
+        if self._mine(where):
+            self._out.bad(where, node, why, key)
+
+    def unsure(self, where, node, why):
+        if self._mine(where):
+            self._out.unsure(where, node, why)
+
+    def count(self, *a, **k):
+        pass
+
+    def note(self, *a, **k):
+        pass
+
+
+@rule('C03.approx-data', floor=2)
+def approx_data(repo, out):
+    """Coloured approximations: the step/form data shared by all colour groups comes from a COLOURED wrt (and is
+    bound whenever a group is built), so the compressed evaluation is differenced with the settings declared for
+    the coloured columns and reconstructs their entries (clause shared with C12.colored-wrt)."""
+    try:
+        from . import C12 as _c12
+    except Exception as e:   # pragma: no cover
+        raise AnalysisError(f'C12 rule module not importable: {e}')
+    _c12.colored_wrt(repo, _Only(out, 'ApproximationScheme._init_colored_approximations'))
+
+
 # =========================================================================== self-test
 _SUB_BLOCK = ("                if self.simul_coloring is not None and self.simul_coloring._subtractions:\n"
               "                    self.simul_coloring._apply_subtractions(self.J)\n")
@@ -3659,6 +3701,19 @@ selftest(
                   "        in_offsets[in_offsets == 0.0] = 1.0\n        if not self._relcopy:\n            self._inputs.set_val(starting_inputs)\n\n        sparsity, sp_info")]),
     Twin('sparsity-twin-fix-after-scaling', EXEC, "        in_offsets[in_offsets == 0.0] = 1.0\n        in_offsets *= info['perturb_size']\n",
          "        in_offsets *= info['perturb_size']\n        in_offsets[0.0 == in_offsets] = info['perturb_size']\n"),
+    # ---- stored seed C03_3: shared approximation data taken from the first table entry instead of the first coloured wrt
+    Mutant('approx-data-from-first-table-entry', APPROX,
+           '        for wrt, meta in self._wrt_meta.items():\n            if wrt_matches is None or wrt in wrt_matches:\n'
+           '                # data is the same for all colored approxs so we only need the first\n'
+           '                data = self._get_approx_data(system, wrt, meta)\n                break\n'
+           '        else:\n            return  # this scheme has no colored wrt\n',
+           '        # data is the same for all colored approxs so we only need the first\n'
+           '        wrt, meta = next(iter(self._wrt_meta.items()))\n        data = self._get_approx_data(system, wrt, meta)\n',
+           'C03.approx-data'),
+    Mutant('approx-data-filter-negated', APPROX, '            if wrt_matches is None or wrt in wrt_matches:\n                # data is the same',
+           '            if wrt_matches is None or wrt not in wrt_matches:\n                # data is the same', 'C03.approx-data'),
+    Twin('approx-data-twin-demorgan-filter', APPROX, '            if wrt_matches is None or wrt in wrt_matches:\n                # data is the same',
+         '            if not (wrt_matches is not None and wrt not in wrt_matches):\n                # data is the same'),
     Twin('coords-twin-renamed', COL, "    nzrows, nzcols = J.row, J.col\n    col_groups = _get_full_disjoint_cols(J)",
          "    nzrows, nzcols = J.row, J.col\n    col_groups = _get_full_disjoint_col_matrix_cols(_2col_adj_rows_cols(J))"),
 )
